@@ -118,6 +118,56 @@ def joinOutput (cfg : JCfg) (arrivals : List (Nat × JMsg)) : List JOut :=
   (distinct (arrivals.map (·.2.grp))).flatMap (fun g =>
     (joinSets cfg.parents (fun m => goRound cfg.tol m.time) (arrivals.filter (fun a => a.2.grp == g))).filterMap (joinedPoint cfg))
 
+/-- All join sets of all groups. -/
+def joinSetsAll (cfg : JCfg) (arrivals : List (Nat × JMsg)) : List (JSet JMsg) :=
+  (distinct (arrivals.map (·.2.grp))).flatMap (fun g =>
+    joinSets cfg.parents (fun m => goRound cfg.tol m.time) (arrivals.filter (fun a => a.2.grp == g)))
+
+/-! ### Batch joins: the points of the batches of one set are joined by rounded time and occurrence -/
+
+def batchPoints (v : Option JMsg) : List BPt :=
+  match v with
+  | some b => b.points
+  | none => []
+
+/-- What parent `vp.2` contributes to one joined batch point: its point's fields, prefixed – or the fill
+value under the field names of the set's first point. -/
+def contributionB (cfg : JCfg) (fieldNames : List String) (vp : Option BPt × String) : List (String × String) :=
+  match vp.1 with
+  | some p => p.fields.map (fun kv => (vp.2 ++ cfg.delim ++ kv.1, kv.2))
+  | none => fieldNames.map (fun k => (vp.2 ++ cfg.delim ++ k, (fillToken cfg.fill).getD ""))
+
+/-- The joined batch of one set of batches (one per parent, some missing): for every rounded point time, in
+ascending order, one point per occurrence index k holding the k-th point of every batch that has one at that
+time; inner join keeps only complete rows, outer join fills (field names: those of the first point of the
+first non-empty batch). Name, group tags of the first present batch (or `streamName`); `tmax` = the rounded
+batch time. -/
+def joinedBatch (cfg : JCfg) (s : JSet JMsg) : Option JBOut :=
+  match s.values.filterMap id with
+  | [] => none
+  | first :: _ =>
+    let all := s.values.flatMap batchPoints
+    let fieldNames := match all with
+      | p :: _ => p.fields.map (·.1)
+      | [] => []
+    let times := (distinct (all.map (fun p => goRound cfg.tol p.time))).mergeSort (fun a b => decide (a ≤ b))
+    let rows := times.flatMap (fun t =>
+      (rowsOf (s.values.map (fun v => (batchPoints v).filter (fun p => goRound cfg.tol p.time == t)))).map (fun r => (t, r)))
+    some { name := if cfg.sname = "" then first.name else cfg.sname, time := s.time, byName := first.byName, tags := first.tags
+           points := rows.filterMap (fun tr =>
+             if !tr.2.all Option.isSome && (fillToken cfg.fill).isNone then none
+             else some (tr.1, fieldMap ((tr.2.zip cfg.names).flatMap (contributionB cfg fieldNames)))) }
+
+/-- Everything a batch join has to emit (a multiset). -/
+def joinBatchOutput (cfg : JCfg) (arrivals : List (Nat × JMsg)) : List JBOut :=
+  (joinSetsAll cfg arrivals).filterMap (joinedBatch cfg)
+
+/-- Hypothesis of the batch clause: inside every batch the points are in (rounded) time order. -/
+def batchPointsOrdered (cfg : JCfg) (arrivals : List (Nat × JMsg)) : Prop :=
+  ∀ a ∈ arrivals, nondecreasing (a.2.points.map (fun p => goRound cfg.tol p.time))
+instance (cfg : JCfg) (arrivals : List (Nat × JMsg)) : Decidable (batchPointsOrdered cfg arrivals) := by
+  unfold batchPointsOrdered; infer_instance
+
 /-- Hypothesis of the join clauses: within every group, every parent's (rounded) times never go back.
 `steps` lists what each parent sent in arrival order: (parent, group, time) of points AND barriers. -/
 def joinOrdered (cfg : JCfg) (steps : List (Nat × String × Int)) : Prop :=
